@@ -224,10 +224,14 @@ func gen(c *core.Ctx) error {
 						c.OracleFail("format", err.Error(), d)
 					}
 					for _, iv := range append([][]byte{obs.IVA, obs.IVB}, obs.MoreIVs...) {
-						if ivs[string(iv)] {
-							c.OracleFail("iv-repeat", "a base IV was drawn twice in one run", d)
+						// two base IVs that agree beyond the leading counter word give overlapping nonce
+						// sequences under the same key, whatever their leading words are
+						if len(iv) == 16 && ivs[string(iv[4:])] {
+							c.OracleFail("iv-repeat", fmt.Sprintf("two key installations in one run drew base IVs with the same last 12 bytes (%x): their nonce sequences overlap", iv[4:]), d)
 						}
-						ivs[string(iv)] = true
+						if len(iv) == 16 {
+							ivs[string(iv[4:])] = true
+						}
 					}
 				} else {
 					c.OracleFail("setup", obs.SetupErr.Error(), d)
